@@ -115,6 +115,34 @@ fn alias<B: Backend>(name: &'static str, packing: TablePacking) -> Result<Box<dy
 }
 
 
+/// Const / Public rows that share a witness slot: a public input connected to a constant, two
+/// public inputs connected to each other, two public inputs connected to one constant. Every
+/// such row's value cell must stay tied to the slot (the tables have no constraint but the bus).
+fn row_alias<B: Backend>(name: &'static str, packing: TablePacking) -> Result<Box<dyn Case>, String> {
+    let mut b = B::new_builder();
+    let p = b.public_input();
+    let y = b.public_input();
+    let k7 = b.define_const(tag::<B>(7));
+    b.connect(p, k7); // Public row on a Const slot
+    let q1 = b.public_input();
+    let q2 = b.public_input();
+    b.connect(q1, q2); // two Public rows on one slot
+    let r1 = b.public_input();
+    let r2 = b.public_input();
+    let k9 = b.define_const(tag::<B>(9));
+    b.connect(r1, k9);
+    b.connect(r2, k9); // three rows on one slot
+    let m = b.mul(p, y);
+    let s = b.add(m, q1);
+    let t = b.add(s, r2);
+    let expected = b.public_input();
+    b.connect(t, expected);
+    let (yv, qv) = (tag::<B>(3), tag::<B>(21));
+    let ev = tag::<B>(7) * yv + qv + tag::<B>(9);
+    let inputs = Inputs { public: vec![tag::<B>(7), yv, qv, qv, tag::<B>(9), tag::<B>(9), ev], private: vec![], siblings: vec![] };
+    finish::<B>(name, b, inputs, packing)
+}
+
 /// One Horner chain of three steps (with K = 2: one packed pair + one single step) starting
 /// from the zero accumulator, followed by an Add that reads the chain's result.
 fn horner<B: Backend>(name: &'static str, packing: TablePacking) -> Result<Box<dyn Case>, String> {
@@ -584,6 +612,8 @@ pub fn catalogue() -> Vec<Spec> {
     vec![
         spec!("bb1-arith", BbD1, "const, public, private input, ALU Add/Mul (forward+backward)/MulAdd/BoolCheck; D=1", |n| arith::<BbD1>(n, TablePacking::default())),
         spec!("bb1-alias", BbD1, "ops whose ports share a slot (x*y+x, x*x+y, x+x, y*y, Horner with aliased operands); D=1", |n| alias::<BbD1>(n, TablePacking::default())),
+        spec!("bb1-rowalias", BbD1, "Const/Public rows sharing a slot (public~const, public~public, two publics on one constant); D=1", |n| row_alias::<BbD1>(n, TablePacking::default())),
+        spec!("bb4-rowalias-l2", BbD4, "the same over the quartic extension with two public lanes", |n| row_alias::<BbD4>(n, TablePacking::new(2, 1))),
         spec!("bb1-horner", BbD1, "HornerAcc chain (packed pair + single step), zero accumulator; D=1", |n| horner::<BbD1>(n, TablePacking::default())),
         spec!("bb1-horner-k3", BbD1, "3-step chain as one packed row of arity 3 = K_max", |n| horner::<BbD1>(n, TablePacking::new(1, 1).with_horner_pack_k(3))),
         spec!("bb1-horner-k4", BbD1, "3-step chain as one packed row of arity 3 < K_max = 4", |n| horner::<BbD1>(n, TablePacking::new(1, 1).with_horner_pack_k(4))),
@@ -618,5 +648,5 @@ pub fn catalogue() -> Vec<Spec> {
 }
 
 /// Circuits of the quick tier, cheapest first (the budget cuts from the end).
-pub const QUICK: [&str; 10] =
-    ["bb1-arith", "bb1-alias", "bb1-horner", "bb1-horner-k4", "bb1-horner7-k4", "bb4-recompose", "bb4-challenger", "kb4-sponge-partial", "bb1-bits", "bb4-merkle"];
+pub const QUICK: [&str; 11] =
+    ["bb1-arith", "bb1-alias", "bb1-rowalias", "bb1-horner", "bb1-horner-k4", "bb1-horner7-k4", "bb4-recompose", "bb4-challenger", "kb4-sponge-partial", "bb1-bits", "bb4-merkle"];
